@@ -848,7 +848,9 @@ package ion
 //@ func (*binaryWriter).WriteSymbol
 //@ modifies *
 //@ atcall[C05,C11] (*binaryWriter).resolveFromSymbolTable val.Text != nil && a2 == *val.Text
+//@ counts (*binaryWriter).resolveFromSymbolTable
 //@ atcall[C05] (*binaryWriter).writeSymbolFromID [id uint64] a2 == id && (val.Text == nil ==> val.LocalSID != SymbolIDUnknown && id == uint64(val.LocalSID))
+//@ atcall[C05] (*binaryWriter).writeSymbolFromID val.Text != nil ==> vcCalls("(*binaryWriter).resolveFromSymbolTable") == 1
 //@ ensures[C12,C19] old(w.err) != nil ==> err == old(w.err) && w.err == old(w.err)
 //@ ensures[C12,C19] err != nil ==> w.err != nil
 
